@@ -156,10 +156,22 @@ def run_case(stream, seed, ctx, params):
     else:
         d = U.build_universe_deck(rng, depth=rng.randint(1, 2), macro_p=0.0, tr_p=0.0, fill_tr_p=0.3, trcl_p=0.2)
         keys = ['mat', 'rho', 'trcl', 'imp', 'u', 'fill']
+    by_card = rng.random() < 0.35        # importances on an IMP:N data card, by position in the cell block
+    if by_card:
+        keys = [k for k in keys if k != 'imp']
     new = L.add_like_cells(d, rng, keys=keys)
     from ..gen_univ import _cyclic
     if _cyclic(d):
         return None
+    # a LIKE card may stand anywhere after the card it refers to, not only at the end of the block
+    if rng.random() < 0.6:
+        for c in new:
+            d.cells.remove(c)
+            lo = max(i for i, x in enumerate(d.cells) if x.id == c.hints['like_of']) + 1
+            d.cells.insert(rng.randint(lo, len(d.cells)), c)
+    if by_card and all('imp_text' not in c.hints for c in d.cells):
+        d.imp_cards = {'n': [D.fnum(float(c.imp)) if rng.random() < 0.3 else str(int(c.imp)) if c.imp == int(c.imp) else D.fnum(c.imp)
+                             for c in d.cells]}
     lay_seed = rng.random()
     text = D.render_deck(d, D.Layout(random.Random(lay_seed)))
     text2 = D.render_deck(L.expanded_copy(d), D.Layout(random.Random(lay_seed)))
